@@ -270,6 +270,9 @@ def dpor_extra_spaces(which):
         # Condvar (FIFO wake-up, lost notifications, notify with and without the mutex): deadlocks are outcomes too
         "cv": lambda: {"label": "dporCv", "n": 3, "progs": dporcheck.space(3, ["cvw", "cvwld", "cvset1", "cvsetall", "cvn1in", "n1", "nall"], ["s"], ["m"], 1, 1)},
         "cv2": lambda: {"label": "dporCv2", "n": 3, "progs": dporcheck.space(3, ["cvwld", "cvset1", "n1", "ld"], ["s"], ["m"], 2, 0)},
+        # sync::Notify: the spurious decision (a path entry of its own kind), a spurious return is a yield
+        "nt": lambda: {"label": "dporNt", "n": 3, "progs": dporcheck.space2(3, ["stnotify", "notify", "st", "ld"], ["nwaitld", "nwait", "ld"], ["x"], ["m"], 1, 2)},
+        "nt2": lambda: {"label": "dporNt2", "n": 2, "progs": dporcheck.space2(2, ["stnotify", "notify", "st"], ["nwaitld", "nwait", "ld"], ["x"], ["m"], 2, 3)},
         "rw": lambda: {"label": "dporRw", "n": 3, "progs": dporcheck.space(3, ["rdld", "wrst", "wrld", "ld", "st"], ["x"], ["m"], 2, 0)},
         "rw4": lambda: {"label": "dporRw4", "n": 4, "progs": dporcheck.space(4, ["rdld", "wrst", "rdst"], ["x"], ["m"], 1, 0)},
         "rwtry": lambda: {"label": "dporRwTry", "n": 3, "invariants": False,
@@ -340,6 +343,7 @@ def C08(ctx):
     sync_family(ctx, families.waits(ctx.tier, ctx.seed))
     # Dpor.tla with Condvar, park/unpark (conformance only: F15) and JoinHandle::join: whole program spaces
     dpor_space(ctx, [None], ("C01",), quick_sample=70, spaces=dpor_extra_spaces(["cv", "cv2", "park", "join"]))
+    dpor_space(ctx, [None, 1], ("C01", "C15"), quick_sample=40, spaces=dpor_extra_spaces(["nt", "nt2"]))
 
 
 def C09(ctx):
